@@ -141,13 +141,23 @@ pub fn run(input: &mut dyn BufRead, out: &mut dyn Write, _args: &[String]) -> R 
 pub fn packet(frame: &[u8], flows: &mut TtlCache<FlowKey, TcpFlow>, procs: &HttpProcessors) -> Value {
     use huginn_net_http::packet_parser::{parse_packet, IpPacket};
     match guarded(|| {
-        let r = match parse_packet(frame) {
-            IpPacket::Ipv4(p) => huginn_net_http::http_process::process_http_ipv4(&p, flows, procs),
-            IpPacket::Ipv6(p) => huginn_net_http::http_process::process_http_ipv6(&p, flows, procs),
+        use pnet::packet::Packet;
+        // the packet path does not report endpoints: label the frame with the ones the crate's own parser sees (attribution only)
+        let ports = |pl: &[u8]| pnet::packet::tcp::TcpPacket::new(pl).map(|t| (t.get_source(), t.get_destination()));
+        let (r, eps) = match parse_packet(frame) {
+            IpPacket::Ipv4(p) => {
+                let e = ports(p.payload()).map(|(a, b)| (format!("{}|{}", p.get_source(), a), format!("{}|{}", p.get_destination(), b)));
+                (huginn_net_http::http_process::process_http_ipv4(&p, flows, procs), e)
+            }
+            IpPacket::Ipv6(p) => {
+                let e = ports(p.payload()).map(|(a, b)| (format!("{}|{}", p.get_source(), a), format!("{}|{}", p.get_destination(), b)));
+                (huginn_net_http::http_process::process_http_ipv6(&p, flows, procs), e)
+            }
             IpPacket::None => return json!({"r": "noip"}),
         };
         match r {
-            Ok(pkg) => json!({"r": "ok", "req": pkg.http_request.as_ref().map(req_to), "resp": pkg.http_response.as_ref().map(resp_to)}),
+            Ok(pkg) => json!({"r": "ok", "req": pkg.http_request.as_ref().map(req_to), "resp": pkg.http_response.as_ref().map(resp_to),
+                              "src": eps.as_ref().map(|e| e.0.clone()), "dst": eps.as_ref().map(|e| e.1.clone())}),
             Err(e) => json!({"r": "err", "e": e.to_string()}),
         }
     }) {
